@@ -4,6 +4,7 @@ use serde_json::Value;
 pub mod c01;
 pub mod c05;
 pub mod dd;
+pub mod dd_fam;
 pub mod ds;
 pub mod fam;
 pub mod misc;
